@@ -10,7 +10,7 @@ from ..report import Report
 from ..terms import c
 from .c11 import LOCAL_APIS, UTC_APIS, apps_in
 
-LEVEL = "other"
+LEVEL = "proof"
 FUNC = "aioswitcher.schedule.tools:pretty_next_run"
 NOW_LOCAL = {"datetime.datetime.now", "datetime.datetime.today", "time.localtime", "datetime.date.today"}
 NOW_UTC = {"datetime.datetime.utcnow", "time.gmtime"}
@@ -34,11 +34,15 @@ def run(prog: Program, rep: Report, tier: str) -> None:
     rep.rule("R13.2", "the weekday named in 'Due next <weekday>' is the name (Days.value) of an element of {d.weekday : d in days}: always one of the selected days", 1)
     rep.rule("R13.3", "no days => 'Due today at <start>' without reading the clock; every result is one of the three templates with the unmodified start time", 2)
     rep.rule("R13.4", "with days given, 'today' is returned exactly under (current weekday in selected weekdays) and (now < start), strict", 1)
+    rep.rule("R13.6", "the day chosen once 'today' is ruled out is the earliest upcoming one: the selected weekdays are sorted ascending, the first one STRICTLY after today's weekday is taken, and only if there is none the first selected weekday (next week) - by the lemma in the evidence this is the nearest future occurrence, a full week ahead when only today is selected", 2)
+    rep.rule("R13.5", "'tomorrow' is answered exactly when the chosen day is the calendar day after today: (next == today + 1) or (next is Monday and today is Sunday), equivalently (next - today) mod 7 == 1; all other chosen days are named 'next <weekday>'", 2)
     rep.explanation = (
-        "Decides four clauses: the clock domain of 'now' (LOCAL), that the named weekday is a selected day (provenance), the no-days case and the three templates, and the guard of the 'today' answer. "
-        "EXPLICITLY NOT decided: that the day chosen for 'tomorrow'/'next <weekday>' is the EARLIEST future occurrence. That is arithmetic over (current weekday, day set, time order); "
-        "deciding it means evaluating the selection on each of the 7x128x3 cases, which is execution whatever interpreter performs it and outside this family. "
-        "A green C13 must therefore not be read as 'the text is right'."
+        "Decides the function by normal form, clause by clause: the clock domain of 'now' (LOCAL); the named weekday is a selected day (provenance); the no-days case and the three templates; "
+        "'today' exactly under (today selected and now < start); the chosen day is the first selected weekday strictly after today in ascending order, else the first selected weekday (R13.6); "
+        "'tomorrow' exactly when the chosen day is the calendar day after today (R13.5). "
+        "Lemma used (arithmetic on weekdays 0..6, stated not executed): with today's own occurrence ruled out, the nearest future occurrence of a non-empty day set S falls on min{d in S : d > w} if that set is non-empty "
+        "and otherwise on min S in the following week (exactly 7 days ahead when min S == w); it is the next calendar day iff (n - w) mod 7 == 1. "
+        "No case of (weekday, day set, time order) is evaluated. NOT decided: strptime/strftime library behaviour and that the host's local clock is right."
     )
     rep.trusted += ["datetime.now()/today() read the LOCAL clock, utcnow()/gmtime() the UTC clock (CPython docs)"]
     fi = prog.func(FUNC)
@@ -122,6 +126,159 @@ def run(prog: Program, rep: Report, tier: str) -> None:
         if not mem or not strict_ok:
             bad4 = f"'today' is answered under {T.show(conj(pcs[-2:]))[:300]}; expected (weekday(now) in selected weekdays) and (time(now) < start)"
     rep.check(bad4 is None, "R13.4", "guard of 'today'", where, bad4 or "", key="R13.4|today-guard")
+    # ---- R13.5 guard of 'tomorrow' vs 'next <weekday>'
+    from ..interp import neg as _neg
+    from .c17 import _flat as flat17
+    mon = denum.attr("MONDAY", "weekday")
+    sun = denum.attr("SUNDAY", "weekday")
+
+    def accepted(N: T.Term, W: T.Term) -> List[T.Term]:
+        n_minus = T.Lin.of(N) - 1
+        forms = []
+        step = [("cmp", "==", n_minus.term(), W), ("cmp", "==", W, n_minus.term()), ("cmp", "==", N, (T.Lin.of(W) + 1).term()), ("cmp", "==", (T.Lin.of(W) + 1).term(), N)]
+        wrap_parts = [[("cmp", "==", N, c(mon)), ("cmp", "==", W, c(sun))], [("cmp", "==", W, c(sun)), ("cmp", "==", N, c(mon))]]
+        for a in step:
+            for wp in wrap_parts:
+                forms.append(("or", a, ("and",) + tuple(wp)))
+                forms.append(("or", ("and",) + tuple(wp), a))
+        d = (T.Lin.of(N) - T.Lin.of(W)).term()
+        forms.append(("cmp", "==", ("app", "mod", d, c(7)), c(1)))
+        forms.append(("cmp", "==", ("app", "mod", (T.Lin.of(W) + 1).term(), c(7)), N))
+        return forms
+
+    def day_terms(pcs: List[T.Term]) -> List[T.Term]:
+        found: List[T.Term] = []
+
+        def walk(v: Any) -> None:
+            if isinstance(v, tuple):
+                if len(v) == 3 and v[0] == "elemof" and v[1] == sel and v not in found:
+                    found.append(v)
+                for x in v:
+                    walk(x)
+            elif isinstance(v, T.Lin):
+                for t in v.coef:
+                    walk(t)
+        for g in pcs:
+            walk(g)
+        return found
+
+    n_tom = n_nxt = 0
+    bad5 = None
+    for o in rets:
+        v = o.value
+        atoms = v[2] if T.is_seq(v) else ()
+        is_tom = atoms[:1] == (("L", "Due tomorrow at "),)
+        is_nxt = atoms[:1] == (("L", "Due next "),)
+        if not (is_tom or is_nxt):
+            continue
+        W = None
+
+        def find_w(v: Any) -> None:
+            nonlocal W
+            if W is None and isinstance(v, tuple):
+                if v[:2] == ("app", ".weekday"):
+                    W = v
+                    return
+                for x in v:
+                    find_w(x)
+        find_w(tuple(o.state.pc))
+        if is_nxt:
+            N_list = [atoms[1][1][2]] if atoms[1][0] == "txt" and isinstance(atoms[1][1], tuple) and atoms[1][1][0] == "lookup" else []
+        else:
+            N_list = [n for n in day_terms(o.state.pc) if not (isinstance(n[2], tuple) and n[2] == c(-1))]
+        if W is None or not N_list:
+            bad5 = bad5 or "could not identify the chosen day / current weekday on a 'tomorrow'/'next' path"
+            continue
+        ok = False
+        flatpc = flat17(o.state.pc)
+        for N in N_list:
+            for E in accepted(N, W):
+                if is_tom and (E in o.state.pc or E in flatpc):
+                    ok = True
+                if is_nxt:
+                    ne = _neg(E)
+                    parts = list(ne[1:]) if ne[0] == "and" else [ne]
+                    if all(pp in flatpc or pp in o.state.pc for pp in parts):
+                        ok = True
+        if is_tom:
+            n_tom += 1
+        else:
+            n_nxt += 1
+        if not ok:
+            tail = [T.show(g)[:160] for g in o.state.pc[-2:]]
+            bad5 = bad5 or (f"'{'Due tomorrow' if is_tom else 'Due next <weekday>'}' is answered under {tail}; expected the guard (chosen day == today + 1) or (chosen day is Monday and today is Sunday) "
+                            f"{'to hold' if is_tom else 'to be false'} - any other test names a run as 'tomorrow' that is not on the next calendar day (or the reverse)")
+    # ---- R13.6 the chosen day is the earliest upcoming one
+    bad6 = None
+    n6 = 0
+    for o in rets:
+        v = o.value
+        atoms = v[2] if T.is_seq(v) else ()
+        if atoms[:1] not in ((("L", "Due tomorrow at "),), (("L", "Due next "),)):
+            continue
+        n6 += 1
+        pcs_o = o.state.pc
+        W = None
+
+        def find_w2(x: Any) -> None:
+            nonlocal W
+            if W is None and isinstance(x, tuple):
+                if x[:2] == ("app", ".weekday"):
+                    W = x
+                    return
+                for y in x:
+                    find_w2(y)
+        find_w2(tuple(pcs_o))
+        if W is None:
+            bad6 = bad6 or "current weekday not identifiable"
+            continue
+        esym = None
+        later = None
+        for g in flat17(pcs_o):
+            t_ = g[1] if (isinstance(g, tuple) and g and g[0] == "not") else g
+            if isinstance(t_, tuple) and t_[:1] == ("truthy",) and isinstance(t_[1], tuple) and t_[1][:2] == ("app", "list") and isinstance(t_[1][2], tuple) and t_[1][2][0] == "filterobj" and t_[1][2][2] == sel:
+                later = (t_[1][2][1], g[0] != "not")
+        Ns = [n for n in day_terms(pcs_o)]
+        if atoms[:1] == (("L", "Due next "),) and atoms[1][0] == "txt" and isinstance(atoms[1][1], tuple) and atoms[1][1][0] == "lookup":
+            Ns = [atoms[1][1][2]]
+        sorts = [e for e in o.state.events if e.kind == "reorder" and e.args and e.args[0] == sel]
+        first_use = min([i for i, g in enumerate(pcs_o) if ("elemof" in T.show(g) or "filterobj" in T.show(g) or "nomatch" in T.show(g) or "emptyindex" in T.show(g))] or [len(pcs_o)])
+        ok_sort = any(e.target == "sort" and not e.kwargs and len(e.args) == 1 and e.pc_len <= first_use for e in sorts) and not any(e.target == "reverse" for e in sorts)
+        okp = False
+        why6 = ""
+        if later is not None:
+            P, exists = later
+            strict = isinstance(P, tuple) and P[0] == "cmp" and ((P[1] == ">" and P[3] == W and P[2][:2] == ("sym", "$e")) or (P[1] == "<" and P[2] == W and P[3][:2] == ("sym", "$e")))
+            if exists:
+                okp = strict and any(n == ("elemof", sel, ("where", P, c(0))) for n in Ns)
+            else:
+                okp = strict and any(n == ("elemof", sel, c(0)) for n in Ns)
+            why6 = f"candidate filter {T.show(P)[:80]} ({'a later day exists' if exists else 'no later day'}), chosen {[T.show(n)[:90] for n in Ns]}"
+        else:
+            # alternative shape: compare today with the last (largest) selected weekday
+            last = ("elemof", sel, c(-1))
+            ge = ("cmp", ">=", W, last) in flat17(pcs_o) or ("cmp", "<=", last, W) in flat17(pcs_o)
+            lt = ("cmp", "<", W, last) in flat17(pcs_o) or ("cmp", ">", last, W) in flat17(pcs_o)
+            if ge:
+                okp = any(n == ("elemof", sel, c(0)) for n in Ns)
+            elif lt:
+                okp = any(isinstance(n[2], tuple) and n[2][0] == "where" and n[2][1][0] == "cmp" and n[2][1][1] == ">" and n[2][1][3] == W and n[2][2] == c(0) for n in Ns)
+            why6 = f"no candidate filter found; guards {[T.show(g)[:90] for g in pcs_o[4:7]]}, chosen {[T.show(n)[:90] for n in Ns]}"
+        if not ok_sort:
+            bad6 = bad6 or "the selected weekdays are not sorted ascending (list.sort() without key/reverse) before a day is picked: 'first' is not 'earliest'"
+        elif not okp:
+            bad6 = bad6 or (f"with today's own run ruled out the day is chosen by: {why6}; expected the first selected weekday strictly after today's (ascending), else the first selected weekday. "
+                            f"A non-strict test keeps today in the candidates, so with today selected, its time passed and another day selected (e.g. Wed 15:00, {{Wed, Fri}}, start 13:00) the text names today again")
+    if n6 == 0:
+        rep.undecided("R13.6", "chosen day", where, "no 'tomorrow'/'next' path found")
+    else:
+        rep.check(bad6 is None, "R13.6", "chosen day is the earliest upcoming", where, bad6 or "", f"{n6} paths: sorted ascending, first strictly later weekday else first selected weekday", key="R13.6|selection")
+        rep.ok("R13.6", "paths", where, f"{n6} paths examined")
+    if n_tom == 0 or n_nxt == 0:
+        rep.undecided("R13.5", "tomorrow / next split", where, f"{n_tom} 'tomorrow' and {n_nxt} 'next' paths found")
+    else:
+        rep.check(bad5 is None, "R13.5", "guard of 'tomorrow'", where, bad5 or "", f"{n_tom} 'tomorrow' and {n_nxt} 'next' paths", key="R13.5|tomorrow-guard")
+        rep.ok("R13.5", "paths", where, f"{n_tom}+{n_nxt} paths examined")
     rep.sample({"paths": [(o.kind, o.exc_name or T.show(o.value)[:120]) for o in outs], "clock_reads": sorted(reads)})
 
 
